@@ -607,6 +607,14 @@ def fam_faults(rng, thorough=False):
         out.append({"name": "faults/tcp_client_%s" % "_".join(seq), "conf": conf(reconnect_ms=100),
                     "endpoints": [{"kind": "tcp_client", "lmode": seq[0] if seq[0] in ("refuse", "accept_close") else "accept"}],
                     "steps": steps})
+    # the endpoint is configured with a domain name; the host behind it goes away and the name is pointed to another
+    # address (harness DNS on loopback): after the reconnect delay the client connects where the name points NOW
+    out.append({"name": "faults/tcp_client_name_repointed", "conf": conf(reconnect_ms=100),
+                "endpoints": [{"kind": "tcp_client", "host": "verif-peer.test"}],
+                "steps": [{"op": "wait_open", "ep": 0, "n": 1}, {"op": "sleep", "ms": 30}, {"op": "dns_point", "mode": "127.0.0.2"},
+                          {"op": "listener_mode", "ep": 0, "mode": "refuse"}, {"op": "read_err", "ep": 0, "peer": -1},
+                          {"op": "wait_close", "ep": 0, "n": 1}, {"op": "wait_open", "ep": 0, "n": 2}, {"op": "sleep", "ms": 20},
+                          feed(0, "valid", 73901, peer=2), {"op": "quiesce", "ms": 400}]})
     # a long outage: connection attempts keep failing for several times the dial timeout, then the server comes back
     for rd in ([300] if not thorough else [200, 300, 500]):
         out.append({"name": "faults/tcp_client_long_outage_%d" % rd, "conf": conf(reconnect_ms=100, read_ms=rd),
